@@ -72,7 +72,7 @@ func c20Gen(seed int64, idx int, tier string, jobSeed int64) c20Spec {
 
 // c20Loops: situations in which every loop of ONE process is in a non-trivial branch at the same time (the process
 // holds the manager lock while its own host is marked for recovery); they run under the race detector.
-var c20Loops = []string{"manager_on_marked_master", "manager_on_marked_replica_remarked", "manager_host_failed_over_and_back", "manager_on_marked_master_stuck", "manager_on_marked_master_registration_churn"}
+var c20Loops = []string{"manager_on_marked_master", "manager_on_marked_replica_remarked", "manager_host_failed_over_and_back", "manager_on_marked_master_stuck", "manager_on_marked_master_registration_churn", "transient_master_glitch_under_manager_switchover"}
 
 func c20Units(tier string) int {
 	return len(c20Mutations)*2 + tierN(tier, 16, 200) + tierN(tier, 24, 400) + tierN(tier, 24, 200) + tierN(tier, 24, 160)
@@ -175,8 +175,11 @@ func c20Run(u *Unit) {
 			c.TickInterval, c.RecoveryCheckInterval, c.HealthCheckInterval = time.Second, time.Second, time.Second
 		}
 		opts.FirstDaemon = hosts[0]
-		if sp.Mutation == "manager_on_marked_replica_remarked" {
+		if sp.Mutation == "manager_on_marked_replica_remarked" || sp.Mutation == "transient_master_glitch_under_manager_switchover" {
 			opts.FirstDaemon = hosts[1]
+		}
+		if sp.Mutation == "transient_master_glitch_under_manager_switchover" {
+			sp.MgrSw = true
 		}
 	}
 	name := fmt.Sprintf("c20-%d-%s-%s-%s", u.Idx, sp.Family, sp.Mutation, sp.State)
@@ -276,6 +279,27 @@ func c20Run(u *Unit) {
 					s.W.Manual(h, "stop io thread", func(x *world.Server) { x.IORun = false })
 				}
 				time.Sleep(150 * time.Second)
+			case "transient_master_glitch_under_manager_switchover":
+				// manager_switchover is on and the manager (on a replica's host) cannot reach the master for a few seconds
+				// while the master's own record stays good: its "is the master visible" probes fail. Afterwards it must be
+				// able to talk to the master again - a daemon that has wrecked its own handle sends it nothing any more
+				for round := 0; round < 3; round++ {
+					s.W.Cut(mgr, master, true)
+					time.Sleep(time.Duration(7+3*round) * time.Second)
+					s.W.Cut(mgr, master, false)
+					t0 := s.W.Now()
+					time.Sleep(30 * time.Second)
+					n := 0
+					for _, e := range s.W.Events() {
+						if e.Kind == "sql" && e.Phase == "ret" && e.Who == "mysync_"+mgr && e.Host == master && e.T > t0 && e.Err == 0 && e.Class != "dial" {
+							n++
+						}
+					}
+					if in := s.InstByName(lockHolder(s)); in != nil && in.Host == mgr && n == 0 {
+						sc.Violate("C20", "own-state-corrupted:no-statement-reaches-a-healthy-host", fmt.Sprintf("after %s could not reach the master %s for a few seconds (round %d) it has not got a single statement through to it in the 30 s since the path healed, although it still manages and the master is up and reachable", mgr, master, round+1), s.W.Describe())
+						break
+					}
+				}
 			case "manager_on_marked_master_registration_churn":
 				// hosts are registered and removed at any moment while the main loop, the recovery checker and the lag
 				// checker of one process all refresh their host list
